@@ -2,7 +2,10 @@ use crate::{
     infrastructure::instance::InstanceHandle,
     transport::types::TopicKind,
     xtypes::{
-        dynamic_type::{DynamicData, DynamicDataFactory, DynamicType, DynamicTypeMember, TypeKind},
+        dynamic_type::{
+            DynamicData, DynamicDataFactory, DynamicType, DynamicTypeMember, ExtensibilityKind,
+            TypeKind,
+        },
         error::{XTypesError, XTypesResult},
         serializer::serialize_final_without_header,
     },
@@ -109,11 +112,85 @@ impl<'a> KeyHolderData<'a> {
     }
 }
 
+/// Position reached after a value of the type, serialized like the key holder (see
+/// [`serialize_final_without_header`]) from position `pos`, when every string and sequence
+/// has its maximum length. `None` if that is beyond the 16 bytes of a key hash, unbounded
+/// or if the type can not be part of a key.
+fn max_serialized_key_end(dynamic_type: &DynamicType, pos: usize) -> Option<usize> {
+    fn primitive(pos: usize, size: usize) -> Option<usize> {
+        Some(pos.next_multiple_of(size.min(8)) + size)
+    }
+    fn elements(element_type: &DynamicType, length: u32, mut pos: usize) -> Option<usize> {
+        for _ in 0..length {
+            let element_end = max_serialized_key_end(element_type, pos)?;
+            if element_end == pos {
+                break;
+            }
+            pos = element_end;
+        }
+        Some(pos)
+    }
+    fn bound(dynamic_type: &DynamicType) -> Option<u32> {
+        match dynamic_type.descriptor.bound.first() {
+            Some(&bound) if bound > 0 && bound != u32::MAX => Some(bound),
+            _ => None,
+        }
+    }
+
+    let descriptor = dynamic_type.descriptor;
+    let end = match descriptor.kind {
+        TypeKind::BOOLEAN | TypeKind::BYTE | TypeKind::INT8 | TypeKind::UINT8 | TypeKind::CHAR8 => {
+            primitive(pos, 1)
+        }
+        TypeKind::INT16 | TypeKind::UINT16 => primitive(pos, 2),
+        TypeKind::INT32 | TypeKind::UINT32 | TypeKind::FLOAT32 => primitive(pos, 4),
+        TypeKind::INT64 | TypeKind::UINT64 | TypeKind::FLOAT64 => primitive(pos, 8),
+        TypeKind::FLOAT128 => primitive(pos, 16),
+        TypeKind::ENUM => max_serialized_key_end(descriptor.discriminator_type.as_ref()?, pos),
+        TypeKind::STRING8 => Some(primitive(pos, 4)? + bound(dynamic_type)? as usize + 1),
+        TypeKind::SEQUENCE => elements(
+            descriptor.element_type.as_ref()?,
+            bound(dynamic_type)?,
+            primitive(pos, 4)?,
+        ),
+        TypeKind::ARRAY => elements(
+            descriptor.element_type.as_ref()?,
+            descriptor
+                .bound
+                .iter()
+                .try_fold(1u32, |length, &dimension| length.checked_mul(dimension))?,
+            pos,
+        ),
+        TypeKind::STRUCTURE if descriptor.extensibility_kind != ExtensibilityKind::Mutable => {
+            max_serialized_members_end(dynamic_type, pos)
+        }
+        _ => None,
+    }?;
+    (end <= 16).then_some(end)
+}
+
+fn max_serialized_members_end(dynamic_type: &DynamicType, pos: usize) -> Option<usize> {
+    dynamic_type
+        .member_list
+        .iter()
+        .try_fold(pos, |pos, member| {
+            if member.descriptor.is_optional {
+                None
+            } else {
+                max_serialized_key_end(&member.descriptor.r#type, pos)
+            }
+        })
+}
+
 pub fn get_instance_handle_from_key_holder_data<'a>(
     key_holder_data: &KeyHolderData<'a>,
 ) -> Result<InstanceHandle, XTypesError> {
     let data = serialize_final_without_header(Vec::new(), &key_holder_data.0)?;
-    let key = if data.len() <= 16 {
+    // The key is only zero padded if it can never take more than 16 bytes. If it can, the MD5
+    // is used also for the values that are shorter
+    let is_max_size_within_key_hash =
+        max_serialized_members_end(&key_holder_data.0.r#type(), 0).is_some();
+    let key = if is_max_size_within_key_hash && data.len() <= 16 {
         let mut key = [0; 16];
         key[0..data.len()].copy_from_slice(&data);
         key
